@@ -1648,8 +1648,15 @@ def ring_sum_rules(M, R):
         R.broken('A1: cannot identify the method of %s that accumulates det() of a segment (found %d, sum fields %s)' % (PR, len(acc), sorted(sum_fields)))
         return
     sum_q = list(sum_fields)[0]
+    from ..c10_util import outer_fn
     for f in M.fns:
-        if f.is_lambda:
+        # a lambda handed to an algorithm is the loop body of the function it is written in: same instance key
+        host = f
+        hops = 0
+        while host is not None and host.is_lambda and hops < 4:
+            host = outer_fn(fb, host)
+            hops += 1
+        if host is None:
             continue
         adds = []
         for c in list(calls_of(f)) + [n for n in f.all_nodes() if n.get('k') == 'construct' and 'q' in n]:
@@ -1669,7 +1676,7 @@ def ring_sum_rules(M, R):
                     adds.append((c, args[i]))
         revs = [n for n in calls_of(f, NRS + '::reverse') if n.get('recv') is not None and live(f, n['id'])]
         if adds:
-            key = '%s#segment-not-reversed-after-its-det-was-added' % (fkey(f) if f.cls != PR else f.q)
+            key = '%s#segment-not-reversed-after-its-det-was-added' % (fkey(host) if host.cls != PR else host.q)
             why, site = None, f.site
             for (c, a) in adds:
                 ta, root = f.expr(f.strip(a)), f.root_var(a)
